@@ -23,7 +23,7 @@ lvars == <<vars, mvars>>
 GenesisUni == [par |-> <<0>>, diff |-> <<1>>, time |-> <<0>>, btx |-> <<<<1>>>>, tin |-> <<<<>>>>,
                tout |-> <<<<[a |-> 0, v |-> 0]>>>>, vsz |-> <<100>>]
 
-Cfg0 == [net |-> "mainnet", thr |-> Thr, api |-> TRUE, syncing |-> TRUE, gate |-> FALSE, lazy |-> TRUE,
+Cfg0 == [net |-> "mainnet", thr |-> Thr, api |-> TRUE, syncing |-> TRUE, gate |-> FALSE, lazy |-> TRUE, burn |-> FALSE,
          fees |-> [ub |-> 0, ur |-> 0, um |-> 0, bal |-> 0, balm |-> 0, pct |-> 0, pctm |-> 0,
                    hb |-> 0, hr |-> 0, hm |-> 0, sb |-> 0, sp |-> 0]]
 
